@@ -500,7 +500,7 @@ class _Run:
                 exp = self.mval[ti][pn]
                 if ref is not None and (ref_sources(ref) & self.tainted_params()):
                     continue
-                if (ti, pn) in self.pending or ((ti, pn) in self.unknown and ref is not None and ref['k'] == 'abind'):
+                if (ti, pn) in self.pending or ((ti, pn) in self.unknown and ref is not None):
                     continue
                 got = getattr(t, pn)
                 if ref is not None and any(x[2] == id(ref) for x in self.stale_msub):
@@ -559,6 +559,7 @@ class _Run:
                     v = eval_ref(ref, self.msrc)
                     if valid_for(pn, v):
                         self.mval[ti][pn] = v
+                        self.unknown.discard((ti, pn))
                     else:
                         allok = False
         return allok
@@ -834,6 +835,11 @@ class _Run:
                 # the reference to restore currently resolves to an invalid value: it cannot be assigned back (the exit raises),
                 # the parameter keeps the value it had inside the context - but the link itself is restored, the parameter
                 # follows again as soon as its source holds a valid value
+                if (ti, pn) in self.pending:
+                    # (an asynchronous reference was assigned inside the context: whether its result had been applied when
+                    # the exit failed is not tracked - the value is undecided until the restored link delivers a valid one)
+                    self.pending.discard((ti, pn))
+                    self.unknown.add((ti, pn))
                 if oldlink is not None:
                     self.links[ti][pn] = oldlink
                     if oldlink['k'] == 'abind':
